@@ -1873,6 +1873,14 @@ Octagonal_Shape<T>::max_min(const Linear_Expression& expr,
       return true;
     }
   }
+  else if (expr.all_homogeneous_terms_are_zero()) {
+    // A constant expression is bounded even on the universe octagon.
+    ext_n = expr.inhomogeneous_term();
+    ext_d = 1;
+    included = true;
+    g = point(0*Variable(space_dim - 1));
+    return true;
+  }
   // The `expr' is unbounded.
   return false;
 }
